@@ -545,6 +545,23 @@ impl TraversalModel for DeclaringModel {
         Ok(())
     }
 }
+/// an access model that lists features too (one that adds turn penalties to "time" lists it next to the traversal model)
+struct DeclaringAccess {
+    feats: Vec<(String, StateFeature)>,
+}
+impl routee_compass_core::model::access::access_model::AccessModel for DeclaringAccess {
+    fn state_features(&self) -> Vec<(String, StateFeature)> {
+        self.feats.clone()
+    }
+    fn access_edge(&self, _: (&Vertex, &Edge, &Vertex, &Edge, &Vertex), _: &mut Vec<StateVar>, _: &StateModel) -> Result<(), routee_compass_core::model::access::access_model_error::AccessModelError> {
+        Ok(())
+    }
+}
+impl routee_compass_core::model::access::access_model_service::AccessModelService for DeclaringAccess {
+    fn build(&self, _: &Value) -> Result<Arc<dyn routee_compass_core::model::access::access_model::AccessModel>, routee_compass_core::model::access::access_model_error::AccessModelError> {
+        Ok(Arc::new(DeclaringAccess { feats: self.feats.clone() }))
+    }
+}
 struct DeclaringService {
     feats: Vec<(String, StateFeature)>,
 }
@@ -624,8 +641,13 @@ fn state_models(st: &mut Stats, tier: Tier) {
                 }
                 // route 4: SearchApp::build_search_instance: k configured + (n-k) model features + a query override of one model feature
                 if *stride == 1 || tier == Tier::Thorough {
-                    for (k, other_unit) in [(0usize, false), (n / 2, false), (0, true), (n / 2, true)] {
+                    // `listed_twice`: the access model lists the overridden feature as well (the same declaration as the traversal
+                    // model's): one slot, and the override still decides its unit and initial value
+                    for (k, other_unit, listed_twice) in [(0usize, false, false), (n / 2, false, false), (0, true, false), (n / 2, true, false), (0, false, true), (n / 2, true, true)] {
                         if n == 0 {
+                            continue;
+                        }
+                        if listed_twice && n - 1 < k {
                             continue;
                         }
                         // the override may also name another unit of the same kind (the next one in the unit list)
@@ -660,7 +682,8 @@ fn state_models(st: &mut Stats, tier: Tier) {
                         }
                         let d = desc.clone();
                         let q = query.clone();
-                        let case = move || json!({"route": "SearchApp::build_search_instance", "configured": k, "features": d, "query": q});
+                        let case = move || json!({"route": "SearchApp::build_search_instance", "configured": k, "features": d, "query": q, "access_model_lists_the_overridden_feature_too": listed_twice});
+                        let access_feats: Vec<(String, StateFeature)> = if listed_twice { vec![pairs[n - 1].clone()] } else { vec![] };
                         let weights: HashMap<String, f64> = names.iter().map(|n| (n.clone(), 1.0)).collect();
                         let r = guarded(|| -> Result<Arc<StateModel>, String> {
                             let app = SearchApp {
@@ -668,7 +691,7 @@ fn state_models(st: &mut Stats, tier: Tier) {
                                 directed_graph: Arc::new(crate::world::net::Net { n: 1, edges: vec![], xy: None }.graph()),
                                 state_model: Arc::new(StateModel::new(configured.clone())),
                                 traversal_model_service: Arc::new(DeclaringService { feats: model_feats.clone() }),
-                                access_model_service: Arc::new(NoAccessModel {}),
+                                access_model_service: if access_feats.is_empty() { Arc::new(NoAccessModel {}) } else { Arc::new(DeclaringAccess { feats: access_feats.clone() }) },
                                 cost_model_service: Arc::new(CostModelService {
                                     vehicle_rates: Arc::new(HashMap::new()),
                                     network_rates: Arc::new(HashMap::new()),
